@@ -182,6 +182,28 @@ fn main() {
             let extra: Value = m.extra();
             c.summary(extra);
         }
+        "corpus" => {
+            // seed corpus for the coverage-guided stage: small streams and files from the generators
+            let dir = argv[2].clone();
+            let args = parse_args(&argv[3..]);
+            let n = args.nshards.max(1);
+            std::fs::create_dir_all(format!("{}/stream", dir)).ok();
+            std::fs::create_dir_all(format!("{}/file", dir)).ok();
+            let mut r = rng::Rng::derive(args.seed, 0xC0, 0, 0);
+            for i in 0..n {
+                if let Some(st) = streams::any_stream(&mut r, 3000, 5) {
+                    std::fs::write(format!("{}/stream/s{}", dir, i), &st.bytes).ok();
+                }
+                let (_, d, _) = special::shape(i, &mut r);
+                if d.len() < 20_000 {
+                    std::fs::write(format!("{}/stream/p{}", dir, i), &d).ok();
+                }
+                let g = wrap::assemble(&mut r, 2500, 2);
+                std::fs::write(format!("{}/file/f{}", dir, i), &g.bytes).ok();
+                let e = wrap::edge_case(i, &mut r);
+                std::fs::write(format!("{}/file/e{}", dir, i), &e.bytes).ok();
+            }
+        }
         "digest" => {
             // C14, cross-process part: one line with the digest of every public function's result on a
             // seeded input set, computed on `threads` threads (all of which must agree)
